@@ -1418,7 +1418,8 @@ def expandTableFile(Eups, ofd, ifd, productList, versionRegexp=None, force=False
 
                 products.append((cmd,
                                  mat.group(1) == "setupOptional",
-                                 "--external" in line))
+                                 "--external" in line,
+                                 "-j" in args.split())) # -j: the product was setup without its dependencies
         else:
             if block[0]:
                 block = [False, []]
@@ -1434,7 +1435,7 @@ def expandTableFile(Eups, ofd, ifd, productList, versionRegexp=None, force=False
     desiredProducts = []
     optionalProducts = {}
     notFound = {}
-    for productName, optional, isExternal in products:
+    for productName, optional, isExternal, justThis in products:
         if productName == toplevelName:
             continue                    # Don't include product foo in foo.table
         if isExternal:                  # ignore products labelled --external
@@ -1457,7 +1458,7 @@ def expandTableFile(Eups, ofd, ifd, productList, versionRegexp=None, force=False
 
         NVOL.append((productName, version, optional, None))
 
-        if recurse:
+        if recurse and not justThis:
             try:
                 NVOL += eups.getDependencies(productName, version, Eups, setup=True, shouldRaise=True)
             except Exception:
